@@ -307,7 +307,7 @@ func H_C06_slice() {
 //gosym:reach error,absent
 func H_C06_failures() {
 	bad := []string{"d.hidden", "d.Nope", "d.In.Nope", "d.PIn.Leaf", "d.If.Leaf", "d.ViaPtr", "d.Nope()", `d.List["x"]`, "d.A.B", "d.SMap.k.z", "np.A", "d.IMap.k",
-		"mm.nobody.leaf", "mm.nobody.leaf.more", "d.Nested.zz.Leaf", "v.hidden"}
+		"mm.nobody.leaf", "mm.nobody.leaf.more", "d.Nested.zz.Leaf", "v.hidden", "np.ValM()", "np.Add(1)", "d.PIn.Double()"}
 	c := ndChoice("case", len(bad)+2)
 	d := &c06Outer{A: 1, SMap: map[string]int64{"k": 1}, IMap: map[int]int64{7: 1}, List: []int64{1}}
 	var np *c06Outer
@@ -332,4 +332,114 @@ func H_C06_failures() {
 	// ... and stays one: a second evaluation (struct field cache now warm) fails as well
 	_, err2 := hxExec(set, "/m.jet", vars, nil)
 	vfAssert(err2 != nil, "the invalid access is still an error on the second evaluation")
+}
+
+// ---- generated access paths (thorough) ----
+
+// C06Rec is a recursive node that can be left through every kind of link.
+type C06Rec struct {
+	V     int64
+	Next  *C06Rec
+	Val   *C06RecVal // a struct value holding the next node
+	M     map[string]*C06Rec
+	IM    map[int]*C06Rec
+	L     []*C06Rec
+	Arr   [2]*C06Rec
+	I     interface{}
+	PP    **C06Rec
+	C06RecEmb // promoted field Prom
+	hidden *C06Rec
+}
+
+type C06RecVal struct{ Inner C06RecInner }
+type C06RecInner struct{ To *C06Rec }
+type C06RecEmb struct{ Prom *C06Rec }
+
+// pointer methods are nil-safe (a panic inside user code is the user's); the value method
+// cannot be: calling it through a nil pointer is jet's nil dereference to report
+func (r *C06Rec) Get() *C06Rec {
+	if r == nil {
+		return nil
+	}
+	return r.Next
+}
+func (r C06Rec) GetV() *C06Rec { return r.Next }
+func (r *C06Rec) At(i int) *C06Rec {
+	if r == nil || i >= len(r.L) {
+		return nil
+	}
+	return r.L[i]
+}
+
+// c06Links: the template spelling of each link kind and how the data graph realises it.
+var c06Links = []struct {
+	src  string
+	link func(from, to *C06Rec)
+}{
+	{".Next", func(f, t *C06Rec) { f.Next = t }},
+	{".Val.Inner.To", func(f, t *C06Rec) { f.Val = &C06RecVal{C06RecInner{t}} }},
+	{".M.k", func(f, t *C06Rec) { f.M = map[string]*C06Rec{"k": t, "other": nil} }},
+	{`.M["k"]`, func(f, t *C06Rec) { f.M = map[string]*C06Rec{"k": t} }},
+	{".IM[7]", func(f, t *C06Rec) { f.IM = map[int]*C06Rec{7: t, 8: nil} }},
+	{".L[1]", func(f, t *C06Rec) { f.L = []*C06Rec{nil, t} }},
+	{".Arr[1]", func(f, t *C06Rec) { f.Arr[1] = t }},
+	{".I", func(f, t *C06Rec) { f.I = t }},
+	{".PP", func(f, t *C06Rec) { p := t; f.PP = &p }},
+	{".Prom", func(f, t *C06Rec) { f.Prom = t }},
+	{".Get()", func(f, t *C06Rec) { f.Next = t }},
+	{".GetV()", func(f, t *C06Rec) { f.Next = t }},
+	{".At(1)", func(f, t *C06Rec) { f.L = []*C06Rec{nil, t} }},
+}
+
+// H_C06_generated (thorough): access paths of 1..3 links, each link one of 13 kinds (pointer
+// field, fields of nested struct values, map entry as .k and as ["k"], int-keyed map, slice
+// and array element, interface, pointer to pointer, promoted field, pointer and value
+// methods, method with an argument), from a variable or from '.', ending in the leaf .V:
+// the value reached is the symbolic value stored at the end of exactly that chain of links
+// (every node carries a different symbolic leaf); with one link left nil (symbolic
+// position) the access is an error instead.
+//
+//gosym:reach reached,broken
+//gosym:thorough-only
+//gosym:opts maxpaths=400000 wall=1500
+func H_C06_generated() {
+	n := 1 + ndChoice("links", 3)
+	nodes := make([]*C06Rec, n+1)
+	for k := range nodes {
+		nodes[k] = &C06Rec{V: ndInt64("v" + ndItoa(k))}
+	}
+	broken := ndChoice("broken", n+1) // n: intact
+	path := ""
+	for k := 0; k < n; k++ {
+		l := c06Links[ndChoice("l"+ndItoa(k), len(c06Links))]
+		path += l.src
+		if k != broken {
+			l.link(nodes[k], nodes[k+1])
+		}
+	}
+	fromDot := ndBool("dot")
+	src := "d" + path + ".V"
+	if fromDot {
+		src = path + ".V"
+	}
+	var got reflect.Value
+	set := hxSet(nil, "/m.jet", `{{ cap(`+src+`) }}`)
+	vars := make(VarMap)
+	vars.Set("d", nodes[0])
+	vars.SetFunc("cap", c04Capture(&got))
+	_, err := hxExec(set, "/m.jet", vars, nodes[0])
+	vfNote(src)
+	if broken < n {
+		vfReach("broken")
+		vfAssert(err != nil, "a nil link in the middle of an access path is an error")
+		return
+	}
+	vfReach("reached")
+	vfAssert(err == nil, "the access succeeds")
+	if err != nil {
+		return
+	}
+	gi, ok := c04Int(got)
+	vfAssert(ok, "an integer is reached")
+	vfAssert(gi == nodes[n].V, "no access yields a value other than the one stored in the data")
 }
